@@ -213,16 +213,46 @@ def msg_json(m):
     return [[n, ftype(f), bool(f.repeated)] for n, f in m.fields.items()]
 
 
+TOKEN_POOL = ["cur-1", "cur-2", "start"]      # "start" is also the page_token a caller resumes with
+
+
 def gen_history(r, item_kind):
+    """token VALUES are free: half of the histories draw them from a small pool WITH repetition (equal consecutive tokens,
+    a token equal to the caller's own page_token, tokens coming back later); a pager must not read anything into them"""
     n = r.randint(1, 5)
+    pooled = r.maybe(0.5)
     pages, ctr = [], 0
     for k in range(n):
         sz = r.randint(0, 3)
         ids = list(range(ctr, ctr + sz)); ctr += sz
-        pages.append({"ids": ids, "token": "" if k == n - 1 else f"tok{k}{r.randrange(1000)}"})
+        if k == n - 1:
+            tok = ""
+        elif pooled:
+            tok = pages[-1]["token"] if (pages and r.maybe(0.4)) else r.pick(TOKEN_POOL)
+        else:
+            tok = f"tok{k}{r.randrange(1000)}"
+        pages.append({"ids": ids, "token": tok})
     for _ in range(r.randint(0, 2)):          # pages after the empty token: must never be fetched
         pages.append({"ids": [900 + ctr], "token": ""}); ctr += 1
     return pages
+
+
+def token_pattern(hist, token0):
+    live = live_pages(hist)
+    toks = [token0] + [p["token"] for p in live]
+    out = []
+    if any(a == b and a for a, b in zip(toks[1:], toks[2:])): out.append("equal consecutive tokens")
+    if token0 and len(toks) > 1 and toks[1] == token0: out.append("first response echoes the caller's page_token")
+    ne = [t for t in toks[1:] if t]
+    if len(set(ne)) < len(ne): out.append("a token repeats")
+    return out or ["all tokens distinct"]
+
+
+# the history of seeded change seed10_C07 (Props.C07.repeated_token_does_not_stop): page 2 carries the token of page 1
+REPEATED_TOKEN_HISTORY = [{"ids": [1, 2], "token": "cur-2"}, {"ids": [], "token": "cur-2"}, {"ids": [3], "token": ""}]
+# a resumed listing whose first response echoes the caller's page_token; the token comes back once more later
+RESUME_ECHO_HISTORY = [{"ids": [1], "token": "cur-2"}, {"ids": [2], "token": "cur-2"}, {"ids": [3], "token": "cur-1"},
+                       {"ids": [4], "token": "cur-2"}, {"ids": [5], "token": ""}, {"ids": [99], "token": ""}]
 
 
 def item_json(kind, i):
@@ -435,15 +465,22 @@ def t3_service(ctx, r, api, codec, root, svc, svc_full, shapes, model, wmodel, p
     for s in paged:
         m = svc.methods[s["name"]]
         kind = s["repeated"][0]
-        for h in range(ctx.n(2, 6)):
+        for h in range(max(ctx.n(2, 6), len(programs or []))):
             hist = gen_history(r, kind)
-            if programs and h == 0:
-                hist = copy.deepcopy(programs[0])
+            fixed = programs[h] if (programs and h < len(programs)) else None
+            if fixed:
+                hist = copy.deepcopy(fixed["history"])
             reqd = {}
             if s["extra_req"]:
                 reqd = {"parent": "shelves/s1", "filter": "a=b"}
-            if r.maybe(0.3):
+            if r.maybe(0.6 if hist[0]["token"] == "start" else 0.3):
                 reqd["page_token"] = "start"
+            if fixed:
+                reqd.pop("page_token", None)
+                if fixed.get("token0"):
+                    reqd["page_token"] = fixed["token0"]
+            for tp in token_pattern(hist, reqd.get("page_token", "")):
+                ctx.count("token_pattern", tp)
             path = f"/{svc_full}/{s['name']}"
             modes = ["request-instance", "request-dict"]
             if s.get("sig") and "page_token" not in reqd:
@@ -468,7 +505,7 @@ def t3_service(ctx, r, api, codec, root, svc, svc_full, shapes, model, wmodel, p
                     "again_same_args": True,      # programs: the caller lists twice with the same request object
                     "call_kwargs": kwargs,
                     "script": {path: script}}
-            prog = copy.deepcopy(programs[1]) if (programs and h == 0) else gen_program(r, hist, long=ctx.n(0, 1) == 1)
+            prog = copy.deepcopy(fixed["program"]) if (fixed and fixed.get("program")) else gen_program(r, hist, long=ctx.n(0, 1) == 1)
             plans.append((s, m, kind, hist, reqd, call, fail_at, prog))
     for asy in (False, True):
         calls = []
@@ -873,11 +910,11 @@ def enum_programs(n, maxit=2, maxgen=1):
 
 
 def exhaustive_programs(ctx, n):
-    """EVERY small program (not a sample) on one fixed history with an empty middle page, sync and asyncio, op by op against the
+    """EVERY small program (not a sample) on one fixed history with an empty middle page that repeats the token of the page before it, sync and asyncio, op by op against the
     small-step model and against the oracle of check_objects"""
     s = {"name": "ListBooks0", "page_token": "str", "size": ("page_size", "int32"), "size2": None, "next_page_token": "str",
          "repeated": ["message"], "extra_req": True, "lead": True}
-    hist = [{"ids": [1], "token": "a"}, {"ids": [], "token": "b"}, {"ids": [2, 3], "token": ""}, {"ids": [99], "token": ""}]
+    hist = [{"ids": [1], "token": "a"}, {"ids": [], "token": "a"}, {"ids": [2, 3], "token": ""}, {"ids": [99], "token": ""}]      # equal consecutive tokens
     files = build_api([s])
     req = apigen.request(files, "transport=grpc,autogen-snippets=false")
     api, _ = genrun.build_api(req)
@@ -919,7 +956,7 @@ def run(ctx):
     ctx.rule = ("request/response shapes around the AIP-4233 rule (present/absent/mistyped/repeated/optional/oneof token and size fields, "
                 "all integer kinds, 1..3 repeated fields of message/nested/scalar/bytes/map/enum/other-file kinds, declaration order != "
                 "number order, response in another file; proto sub-package layouts: services in a sub-package with messages in the API package, "
-                "one service in each, messages/items in a sub-package with items from a third file) x scripted histories (1..5 pages, sizes 0..3, extra pages after the empty token) "
+                "one service in each, messages/items in a sub-package with items from a third file) x scripted histories (1..5 pages, sizes 0..3, extra pages after the empty token; token values from a small pool with repetition: equal consecutive tokens, a token equal to the caller's page_token, tokens coming back) "
                 "x {sync, asyncio, REST} x call modes (instance, dict, flattened, none) x programs (second listing with the same objects; "
                 "generator programs on one pager: several `pages`/item generators advanced in any interleaving, attribute reads, "
                 "re-iteration; EVERY well-formed program of 4 (thorough: 7) ops on a fixed history; a transient error on a pager-issued fetch under the caller's retry); distinct by (shape), "
@@ -931,7 +968,8 @@ def run(ctx):
               gen_shape(r, 4, conforming=True, first_kind="map"), gen_shape(r, 5, conforming=True, first_kind="other_file"),
               gen_shape(r, 6, force="page_size_wrapper"),
               stream_shape(r, 7, "ss"), stream_shape(r, 8, "cs"), stream_shape(r, 9, "bidi")]
-    run_api(ctx, r, corpus, "corpus", programs=(LEAN_EXAMPLE_HISTORY, LEAN_EXAMPLE_PROGRAM))
+    run_api(ctx, r, corpus, "corpus", programs=[{"history": LEAN_EXAMPLE_HISTORY, "program": LEAN_EXAMPLE_PROGRAM},
+                                                 {"history": REPEATED_TOKEN_HISTORY}, {"history": RESUME_ECHO_HISTORY, "token0": "cur-2"}])
     probe_extended_operation(ctx)
     exhaustive_programs(ctx, ctx.n(4, 7))
     with open(os.path.join(CORPUS, "map_value_other_file.json")) as fh:      # regression input (fixed 1f977de): map pager whose value type lives in another module; must HOLD
